@@ -36,6 +36,8 @@ type Case struct {
 	Vec2 []Val  `json:"vec2,omitempty"`
 	Exp  Val    `json:"exp"`
 	Dev  *Val   `json:"dev,omitempty"` // modelled known deviation (spec: KnownDeviation_*)
+	Lo   *Val   `json:"lo,omitempty"`  // bounds the specification derives for the result (weighted mean)
+	Hi   *Val   `json:"hi,omitempty"`
 	Ty   string `json:"ty,omitempty"`
 }
 
@@ -279,8 +281,28 @@ func (rp *replayer) judge(c *Case, rt string, ti *tinfo, oc outcome, xs []float6
 		if ti.bits == 32 {
 			maxf, minf = math.MaxFloat32/4, 4*float64(math.SmallestNonzeroFloat32)/u
 		}
-		if math.Abs(v) > maxf || (v != 0 && math.Abs(v) < minf) {
+		if math.Abs(v) > maxf {
 			rp.count("skipped_range")
+			return
+		}
+		if v != 0 && math.Abs(v) < minf {
+			// a result in or near the subnormal range: relative precision is not defined there, but
+			// receivers of the same storage width must still agree (to a few subnormal steps)
+			rp.count("skipped_range")
+			step := math.SmallestNonzeroFloat64
+			if ti.bits == 32 {
+				step = float64(math.SmallestNonzeroFloat32)
+			}
+			key := fmt.Sprint("tiny|", ti.bits, "|", c.Op, "|", floatsKey(xs))
+			if prev, ok := rp.cross[key]; ok {
+				if !(math.Abs(prev.v-oc.o.f) <= 4*step+4*u*math.Abs(prev.v)) {
+					rp.mismatch(c, rt, "cross", impl, order, vh.M{"observed": fs(oc.o.f), "other": fs(prev.v), "other_instance": prev.who})
+				} else {
+					rp.count("cross_tiny_ok")
+				}
+			} else {
+				rp.cross[key] = crossRec{oc.o.f, 0, describe(c)}
+			}
 			return
 		}
 		tol += minf * u
@@ -658,6 +680,16 @@ func (rp *replayer) runVec(c *Case) {
 				oc.note = "returned"
 			}
 		})
+		if c.Lo != nil && c.Hi != nil && oc.panicMsg == "" && ti.cls == "float" {
+			// whatever the spread of the entries and the size of alpha
+			lo, hi := c.Lo.Float(), c.Hi.Float()
+			slack := 64 * unitRoundoff(ti) * math.Max(math.Abs(lo), math.Abs(hi))
+			if !(oc.o.f >= lo-slack && oc.o.f <= hi+slack) {
+				rp.mismatch(c, c.R, "bound", "generic", order, vh.M{"observed": fs(oc.o.f), "lo": fs(lo), "hi": fs(hi)})
+				continue
+			}
+			rp.count("bound_ok")
+		}
 		rp.judge(c, c.R, ti, oc, xs, "generic", order)
 	}
 }
